@@ -64,6 +64,10 @@ func c15ReadLine(c net.Conn, d time.Duration) ([]byte, error) {
 }
 
 func (r Rng) c15Cred(kind int) string {
+	if r.Intn(12) == 0 {
+		// longer than any buffer of the login code (bufio's 4096 bytes included)
+		return r.StringFrom("ABCDEFGHIJKLMNOPQRSTUVWXYZ0123456789", []int{4095, 4096, 4097, 5000, 70000}[r.Intn(5)])
+	}
 	switch kind {
 	case 0:
 		return r.Callsign()
